@@ -1,6 +1,7 @@
 """Generated-input correspondence: Spec inhabitants (Lean generator) → real generator (zv batch) and
 Lean model (zvdrv modelbatch); observation normalisation shared by the structural properties."""
 import os
+import re
 import shutil
 import subprocess
 from .common import ZV, ZVDRV, ZVSPEC, sh, run_lines
@@ -86,6 +87,26 @@ def run_impl(cases, want_obs=True, want_dump=True):
         if want_obs and r.startswith("ok") and os.path.exists(c["impl_obs_path"]):
             c["impl_obs"] = [l for l in open(c["impl_obs_path"]).read().split("\n") if l]
     return cases
+
+
+_IDENT_ATTR = re.compile(rb'(?:name|ref|type|base|element|message|binding|itemType|memberTypes)\s*=\s*(?:"([^"]*)"|\'([^\']*)\')')
+
+
+def nonascii_identifier(case):
+    """True when some input file carries a non-ASCII character in an attribute value that ends up in identifier position.
+    Inflector's case conversion consults the Unicode tables there (is_alphanumeric / is_lowercase / is_uppercase); the Lean
+    transcription is the ASCII one (documented approximation, DESIGN.md 9): such inputs are outside the byte correspondence,
+    never outside a property's own oracle."""
+    try:
+        for f in os.listdir(case["in"]):
+            data = open(os.path.join(case["in"], f), "rb").read()
+            for m in _IDENT_ATTR.finditer(data):
+                v = m.group(1) if m.group(1) is not None else m.group(2)
+                if any(b > 127 for b in v):
+                    return True
+    except OSError:
+        pass
+    return False
 
 
 def run_model(cases):
